@@ -26,6 +26,8 @@ def push_conv(ty, i, cmap):
         return f"row[{i}].as_i64().unwrap() as i32"
     if ty == "dual_i32":
         return f"Dual(row[{i}].as_i64().unwrap() as i32)"
+    if ty == "set_i32":
+        return f"Set(row[{i}].as_array().unwrap().iter().map(|v| v.as_i64().unwrap() as i32).collect())"
     return f'panic!("verif harness: cannot push a value of lattice type {ty}")'
 
 
